@@ -18,7 +18,8 @@ R5 sufficiency: adder int >= max(i1, i2) + 1, frac >= max(f1, f2), sign =
 from fractions import Fraction as F
 
 from ..loader import AnalysisError
-from ..pe import PE, Tensor, Obj, PyRaise, ClassRef, explore, Func, Mock
+from ..pe import (PE, Tensor, Obj, PyRaise, ClassRef, explore, Func, Mock,
+                  Unsupported)
 from ..qir import Fwd, simplify_app, mk_app, Eval, Env
 from ..nf import NF, show
 from ..vset import VS
@@ -194,6 +195,13 @@ def rule_accumulator(rep, repo):
         except PyRaise as e:
           rep.fail("R3", "%s::make_accumulator" % cf.relpath,
                    "factory-raises", "%s raises %s" % (cfg, e), instance=cfg)
+          continue
+        except Unsupported as e:
+          # the sizing branches on the kernel dimensions: no closed form;
+          # the concrete kernel shapes below (rule_accumulator_shapes)
+          # decide it
+          rep.extra.setdefault("accumulator_closed_form_unavailable",
+                               {})[cfg] = str(e)[:120]
           continue
         unit = "%s::%s" % (ci.relpath, acc.cls.name)
         rep.unit(unit)
@@ -487,6 +495,80 @@ def rule_factories_keep_their_hands_off(rep, repo):
     raise AnalysisError("instance-count only %d factory sequences" % n)
 
 
+def rule_accumulator_shapes(rep, repo):
+  """R3 on concrete kernel shapes (the closed form above treats the kernel
+  dimensions as symbols and cannot follow code that branches on them): dense
+  (n, m) and convolution (k_h, k_w, c_in, c_out) kernels incl. every
+  dimension equal to 1, the (k_h, k_w, 1, 1) convention the depthwise /
+  pooling callers use, with and without bias.  Every output sums N = product
+  of all but the last dimension (+1 with a bias): the accumulator has at
+  least ceil(log2 N) integer bits more than a product and keeps its
+  fractional bits."""
+  ci = repo.module(CI)
+  cf = repo.module(CF)
+  mf = repo.module(MF)
+  unit = "%s::FixedPointAccumulator" % ci.relpath
+  rep.unit(unit)
+  shapes = [(5, 1), (1, 7), (16, 8), (3, 3, 16, 1), (1, 1, 64, 1),
+            (3, 3, 1, 1), (3, 3, 1, 8), (1, 1, 1, 1), (3, 3, 16, 2),
+            (5, 1, 4, 1), (1, 5, 4, 3), (7, 7, 3, 64), (3, 16, 1), (3, 1, 1),
+            (1, 16, 4)]
+  n = 0
+  for kw, kx in (("fixed_s", "fixed_s"), ("fixed_u", "fixed_ub"),
+                 ("po2_s", "po2_u"), ("ternary", "fixed_s")):
+    for shape in shapes:
+      for use_bias in (False, True):
+        pe = PE(repo)
+
+        def sized(kind, tag):
+          q = ta.make_operand(pe, repo, kind, tag)
+          if kind.startswith("fixed"):
+            q.attrs["bits"], q.attrs["int_bits"] = 6, 2
+          elif kind.startswith("po2"):
+            q.attrs["bits"] = q.attrs["int_bits"] = 3
+          return q
+        cfg = "make_accumulator(kernel %s, %s x %s, use_bias=%s)" % (
+            shape, kw, kx, use_bias)
+        try:
+          fac = pe.call(pe.lookup_global("MultiplierFactory", mf), [], {})
+          m = pe.call(pe.getattr(fac, "make_multiplier"),
+                      [sized(kw, "w"), sized(kx, "x")], {})
+          afac = pe.call(pe.lookup_global("AccumulatorFactory", cf), [], {})
+          acc = pe.call(pe.getattr(afac, "make_accumulator"),
+                        [list(shape), m], {"use_bias": use_bias})
+        except PyRaise as e:
+          rep.fail("R3", unit, "factory-raises", "%s raises %s" % (cfg, e),
+                   instance=cfg)
+          continue
+        o, mo = acc.attrs.get("output"), m.attrs.get("output")
+        terms = 1
+        for d in shape[:-1]:
+          terms *= d
+        terms += int(use_bias)
+        need = (terms - 1).bit_length()          # ceil(log2 terms)
+        if mo.attrs.get("is_po2"):
+          mn, mx = pe.call(pe.getattr(mo, "get_min_max_exp"), [], {})
+          m_int, m_frac = F(mx), F(mn)
+        else:
+          m_int = F(mo.attrs["int_bits"])
+          m_frac = F(mo.attrs["bits"]) - int(bool(mo.attrs.get(
+              "is_signed"))) - m_int
+        a_int = o.attrs.get("int_bits")
+        a_frac = None if a_int is None else F(o.attrs["bits"]) - int(bool(
+            o.attrs.get("is_signed"))) - F(a_int)
+        n += 1
+        rep.check(a_int is not None and F(a_int) >= m_int + need and
+                  a_frac >= m_frac, "R3", unit,
+                  "accumulator-too-small-for-kernel-shape",
+                  "%s: every output sums %d terms; the accumulator has %s "
+                  "integer / %s fractional bits, a product %s / %s: needs "
+                  "%d more integer bits" % (cfg, terms, a_int, a_frac,
+                                            m_int, m_frac, need),
+                  instance=cfg, observed="int %s frac %s" % (a_int, a_frac))
+  if n < 100:
+    raise AnalysisError("instance-count only %d concrete accumulators" % n)
+
+
 def rule_float_sums(rep, repo):
   """R9: floating-point operands.  A sum with a floating-point operand is a
   floating-point type at least as wide as every floating-point operand (an
@@ -717,6 +799,7 @@ def run(rep, repo, tier):
                          "'bounded' in the facts)")
   rule_adder(rep, repo)
   rule_accumulator(rep, repo)
+  rule_accumulator_shapes(rep, repo)
   rule_merge(rep, repo)
   rule_siblings(rep, repo)
   rule_factories_keep_their_hands_off(rep, repo)
